@@ -830,6 +830,23 @@ impl WorldA {
                     | Cw20ExecuteMsg::DecreaseAllowance { spender, .. } => Some(o) == si && Some(s) == self.idx(spender),
                     _ => false,
                 };
+                if touched_cell && post.allow[o][s].0 != 0 && post.allow[o][s].0 == exp_allow[o][s].0 {
+                    // the owner's call also decides the expiry: the one it named, else the one the allowance had
+                    let named = match &msg {
+                        Cw20ExecuteMsg::IncreaseAllowance { expires, .. } | Cw20ExecuteMsg::DecreaseAllowance { expires, .. } => *expires,
+                        _ => None,
+                    };
+                    let want = named.unwrap_or(pre.allow[o][s].1);
+                    if post.allow[o][s].1 != want {
+                        self.viol(
+                            out,
+                            "C02",
+                            "allowance-expiry-ne-request",
+                            json!({"kind": kind, "expires_named": named.is_some()}),
+                            format!("{}: allowance {}->{} now expires {:?}, the owner's call implies {:?}", kind, self.universe[o], self.universe[s], post.allow[o][s].1, want),
+                        );
+                    }
+                }
                 if post.allow[o][s].0 != exp_allow[o][s].0 {
                     self.viol(
                         out,
